@@ -14,6 +14,12 @@ import (
 
 // AwaitConnect waits until a pair is selected.
 func (a *Agent) AwaitConnect(ctx context.Context) error {
+	// Once the agent is closed report that, also when it had been connected
+	// before: with both channels closed the select below picks either.
+	if err := a.loop.Err(); err != nil {
+		return err
+	}
+
 	select {
 	case <-a.loop.Done():
 		return a.loop.Err()
